@@ -449,7 +449,7 @@ Definition expected_FetchBlob_conds : list string :=
   "err != nil || actualSize < 0";
   "found";
   "err == nil";
-  "translateGRPCErrCodeFromClient(err) == codes.ResourceExhausted"
+  "translateGRPCErrCodeFromClient(err) == codes.ResourceExhausted || gRPCErrCode(err, codes.Unknown) == codes.ResourceExhausted"
 ].
 Lemma FetchBlob_conds_pinned : Gen.Front.front_FetchBlob_conds = expected_FetchBlob_conds.
 Proof. reflexivity. Qed.
@@ -574,7 +574,7 @@ Definition expected_SpliceBlob_codes : list string :=
   "codes.NotFound";
   "codes.Unknown";
   "codes.Unknown";
-  "codes.Unknown"
+  "gRPCErrCode(err, codes.Unknown)"
 ].
 Lemma SpliceBlob_codes_pinned : Gen.Front.front_SpliceBlob_codes = expected_SpliceBlob_codes.
 Proof. reflexivity. Qed.
